@@ -17,6 +17,10 @@
 (* ReaderNoNewUndefined), a P1/P2 difference the writer's (Writer...).        *)
 (* Inputs on which P is undefined are discarded; an input on which P1 is      *)
 (* undefined gives the writer nothing to answer for.                          *)
+(* Static clauses ("compiles" beyond re-readability, PSyclone's reader being  *)
+(* lenient): the routine interfaces and construct names of the written text   *)
+(* (siface / wiface / wdefs / wrefs, projected from the texts by the driver)  *)
+(* must be valid and keep what the original declares.                         *)
 EXTENDS FortranSem, Json, IOUtils
 
 Cases == JsonDeserialize(IOEnv.PV_CASES)
@@ -49,6 +53,29 @@ Report(c, clause, names) ==
   PrintT("VERDICT " \o ToJson([id |-> c.id, v |-> clause,
                                w |-> [val |-> val, fm |-> fm, prog |-> k, names |-> names]]))
 
+\* ---- static clauses: what the written text declares (projected by the driver
+\* from the text itself, names lower-cased) against what the original declares
+HasStatic(c) == "wiface" \in DOMAIN c
+\* a RESULT clause may not name the function itself (F2008 C1256)
+BadResult(c) == {w.name : w \in {x \in SeqSet(c.wiface) :
+                                   x.kind = "function" /\ x.result # "" /\ x.result = x.name}}
+\* every routine of the original is written, as the same kind, with as many dummies
+LostRoutine(c) == {r.name : r \in {x \in SeqSet(c.siface) :
+                     ~\E w \in SeqSet(c.wiface) :
+                         w.name = x.name /\ w.kind = x.kind /\ w.nargs = x.nargs}}
+\* a function referenced elementally (array actual) must still be ELEMENTAL
+LostElemental(c) == {r.name : r \in {x \in SeqSet(c.siface) :
+                       x.elemuse /\ \E w \in SeqSet(c.wiface) : w.name = x.name /\ ~w.elemental}}
+\* EXIT / CYCLE may only name a construct that exists
+UndefinedNames(c) == SeqSet(c.wrefs) \ SeqSet(c.wdefs)
+StaticClauses(c) ==
+  IF ~HasStatic(c) THEN {}
+  ELSE {x \in {<<"WrittenResultClauseValid", BadResult(c)>>,
+                <<"WriterKeepsRoutines", LostRoutine(c)>>,
+                <<"WriterKeepsElemental", LostElemental(c)>>,
+                <<"WrittenConstructNamesDefined", UndefinedNames(c)>>} : x[2] # {}}
+ReportStatic(c) == \A x \in StaticClauses(c) : Report(c, x[1], x[2])
+
 \* anchor self-test (c01_anchor): print the reference's final observables
 Dump(c, M) == ("dump" \in DOMAIN c) =>
    PrintT("FINAL " \o ToJson([id |-> c.id, val |-> val, fm |-> fm, st |-> LiveOf(M, c.live)]))
@@ -65,12 +92,15 @@ Step ==
           /\ Stop("fail")
      ELSE LET M == Run(c, c.progs[k]) IN
        IF k = 1 THEN
-          IF M.sig # "" THEN /\ PrintT("DISCARD " \o ToJson([id |-> c.id]))
-                             /\ Stop("discard")
-          ELSE IF Len(c.progs) = 1 THEN Dump(c, M) /\ Stop("ok")
-          ELSE /\ ref' = LiveOf(M, c.live)
-               /\ k' = 2
-               /\ UNCHANGED <<cid, val, fm, bad, verdict>>
+          /\ ReportStatic(c)        \* independent of the input: repeated per input
+          /\ IF M.sig # "" THEN /\ PrintT("DISCARD " \o ToJson([id |-> c.id]))
+                                /\ Stop("discard")
+             ELSE IF Len(c.progs) = 1
+             THEN Dump(c, M) /\ Stop(IF StaticClauses(c) = {} THEN "ok" ELSE "fail")
+             ELSE /\ ref' = LiveOf(M, c.live)
+                  /\ k' = 2
+                  /\ bad' = (StaticClauses(c) # {})
+                  /\ UNCHANGED <<cid, val, fm, verdict>>
        ELSE
           LET role == c.progs[k].role
               und == M.sig # ""
